@@ -198,3 +198,11 @@ Definition nrt_run (qk : quirks) (p : prog) (fuel : nat) : nstate :=
 
 Definition nrt_completed (qk : quirks) (p : prog) (fuel : nat) : bool :=
   match n_q (nrt_loop qk p fuel (nrt_main qk p)) with [] => true | _ => false end.
+
+(* OscScore.raw: each entry is msg.size.to_bytes(4, 'big') + msg.dgram; enc = the OSC encoding of a
+   stamped bundle, supplied from outside (opaque byte list) *)
+Definition be32 (n : nat) : list Z :=
+  let z := Z.of_nat n in
+  [(z / 16777216) mod 256; (z / 65536) mod 256; (z / 256) mod 256; z mod 256]%Z.
+Definition score_raw (enc : selem -> list Z) (sc : list sentry) : list Z :=
+  flat_map (fun s => be32 (length (enc (s_b s))) ++ enc (s_b s)) sc.
